@@ -197,7 +197,10 @@ class Server:
         except (BrokenPipeError, OSError):
             line = ""
         if not line:
-            rc = self.p.poll()
+            try:
+                rc = self.p.wait(timeout=5)      # the pipe closes a moment before the exit status is there
+            except Exception:
+                rc = self.p.poll()
             self.close()
             self.start()
             return {"died": rc}
